@@ -119,6 +119,7 @@ def limit_errors_keep_their_variant(prog, chk):
 
 
 def run(prog, chk):
+    chk.rule(specs_flag_pairing, prog, chk)
     chk.rule(single_dispatch_entry, prog, chk)
     chk.rule(limit_predicates, prog, chk)
     chk.rule(depth_pairing, prog, chk)
@@ -242,6 +243,11 @@ def classify_read(prog, chk, body, field, variant, bb, idx, node, ncmp):
             chk.ok("A7.read", fkey + ":plumbing", w, f"{field} copied into a new TransformConfig value")
         elif i != R.TERM and "rv" in n and n["rv"]["k"] == "binop" and n["rv"]["op"] in R.CMP_OPS:
             ncmp[field] += 1
+            lp_c = R.loop_containing(body, b)
+            if field == "loop_limit" and lp_c is not None and bb not in lp_c[1] and body.dominates(bb, lp_c[0]):
+                # the limit is a setting the loop's own body can change (`<config loop-limit=..>`): the test in pass k
+                # is against the limit in force in pass k, not against a copy taken before the first pass
+                chk.bad("A7.pred", fkey + ":snapshot", w, f"the pass counter is compared (inside the loop) with a copy of {field} read before the loop started (line {node.get('line')}): a <config> element in the loop's body that lowers the limit is not honoured, the loop runs on to the old limit")
             check_comparison(prog, chk, body, field, variant, b, i, n, node["lhs"][0] if "lhs" in node else None)
         elif how == "ref":
             # a reference to the value is taken (captured by a closure, handed to a helper): where it is compared is not
@@ -1162,3 +1168,45 @@ def depth_test_unconditional(prog, chk):
     from sa import discharge as D
     guarded = [a for x in cmp_blocks for (a, tgt) in D.dominating_edges(b, x) if b.term(a)["k"] == "switch"]
     chk.ob(not guarded, "A7.depth-unconditional", "inc_depth", b.where(cmp_blocks[0]), "the depth test is evaluated on every call of inc_depth()", "the depth test in inc_depth() is evaluated only under another condition: nesting / reuse recursion in the exempted situation (e.g. inside <specs>) is unbounded and overflows the stack instead of being rejected")
+
+
+
+def specs_flag_pairing(prog, chk):
+    """`in_specs` - which makes a second <specs> an error ("nested") - is true only while the content of a <specs>
+    block is processed: every path from the place it is set to a return passes the place it is cleared (or restored).
+    An exit that leaves it set (the empty `<specs/>`, a failing block) rejects the next, perfectly legal, block"""
+    n = 0
+    for body in prog.bodies.values():
+        if body.unit != "svgdx-lib" or body.path.endswith("::default") or body.path.endswith("::new"):
+            continue
+        opens, closes, closed_edges = [], [], []
+        for x, i, st in body.all_stmts():
+            if "lhs" in st and st["lhs"][1] and st["lhs"][1][-1] == ".in_specs":
+                k = op_const(st["rv"].get("op")) if st["rv"].get("k") == "use" else None
+                if k is not None and k.get("bool") is True:
+                    opens.append((x, i, st.get("line")))
+                else:
+                    closes.append((x, i))  # false, or the saved value
+        for (bb, t, c) in body.call_sites(lambda c: c.path.split("::")[-1] in ("replace", "take") and c.path.startswith(("std::mem::", "core::mem::"))):
+            o = R.origin(body, t["args"][0], carriers={})
+            if not (o[0] == "field" and o[1][1] and o[1][1][-1] == ".in_specs"):
+                continue
+            k = op_const(t["args"][1]) if len(t["args"]) > 1 else None
+            if k is not None and k.get("bool") is True:
+                opens.append((bb, R.TERM, t.get("line")))
+                # where the old value turns out to be `true` nothing changed
+                for (sb, st_) in [(x, body.term(x)) for x in body.reachable if body.term(x)["k"] == "switch"]:
+                    oo = R.origin(body, st_["op"], carriers={})
+                    if oo[0] == "call" and oo[1] == bb:
+                        tt, ft = R.switch_targets_bool(st_)
+                        closed_edges.append((sb, tt))
+            else:
+                closes.append((bb, R.TERM))
+        if not opens:
+            continue
+        chk.touch(body)
+        for (x, i, line) in opens:
+            n += 1
+            esc = R.escapes(body, (x, i), closes, closed_edges=closed_edges)
+            chk.ob(not esc, "A5.specs-flag", f"{body.short}:in_specs", body.where(x, line), f"every exit after `in_specs` is set passes one of the {len(closes)} place(s) that clear / restore it", f"{len(esc)} exit(s) of {body.short} leave `in_specs` set (lines {R.path_lines(body, esc[0])[-4:] if esc else ''}): the next <specs> block of the document is rejected as nested although none is open")
+    chk.floor("A5.specs-flag", n, 1, "place that sets in_specs")
